@@ -991,8 +991,8 @@ package genql
 
 // C03: HAVING judges the finished row of the group (its grouping columns and `*`), and the row put out is the row it judged
 //@ func ExecGroupBy
-//@   at-call mapstore:current[innerKey] assert the-group-row-has-its-columns-before-having-sees-it[C03]: !iter(ExecHaving)
-//@   at-call mapstore:current["*"] assert the-group-row-has-its-members-before-having-sees-it[C03]: !iter(ExecHaving)
+//@   at-call mapstore@loop5 assert the-group-row-has-its-columns-before-having-sees-it[C03]: !iter(ExecHaving)
+//@   at-call mapstore:["*"] assert the-group-row-has-its-members-before-having-sees-it[C03]: !iter(ExecHaving)
 //@   at-call ExecHaving assert having-is-asked-about-this-query[C03]: arg0 == query
 //@   at-call append:slice, assert a-group-is-put-out-iff-having-holds-for-its-row[C03]: iter(ExecHaving) && callresult(ExecHaving, 0) && appended == any(callarg(ExecHaving, 1))
 
